@@ -3,7 +3,7 @@ import itertools
 
 
 def graph_cfg(n_services, svc_edges, tag_carriers=None, tag_requests=None, decorators=None, scopes=None, n_params=0, param_edges=None,
-              svc_param_refs=None, order="asc", ghosts=None, param_sep=""):
+              svc_param_refs=None, order="asc", ghosts=None, param_sep="", todos=()):
     """svc_edges: set of (i,j) meaning s_i has argument @s_j; tag_carriers: {tag: [i...]}; tag_requests: {i: [tags]};
     decorators: list of (tag, [service indices referenced], [tags requested]); scopes: {i: scope};
     order: "asc" / "desc" order in which references are written; ghosts: {i: "first"|"last"} adds a reference to an undeclared
@@ -31,6 +31,8 @@ def graph_cfg(n_services, svc_edges, tag_carriers=None, tag_requests=None, decor
         tags = [t for t, cs in (tag_carriers or {}).items() if i in cs]
         if tags:
             sv["tags"] = tags
+        if i in todos:
+            sv = {"todo": True}
         if scopes and scopes.get(i):
             sv["scope"] = scopes[i]
         svcs["s%d" % i] = sv
